@@ -39,6 +39,10 @@ pub broadcast proof fn axiom_borrow_str_upd<V>(m0: Map<String, V>, m1: Map<Strin
     ensures #[trigger] borrowed_upd::<String, V, str>(m0, m1, k, v) == (exists|key: String| key@ == k@ && m0.contains_key(key) && m1 == m0.insert(key, v)),
 {}
 
+#[verifier::external_body]
+pub broadcast proof fn axiom_borrow_string_upd<V>(m0: Map<String, V>, m1: Map<String, V>, k: &String, v: V)
+    ensures #[trigger] borrowed_upd::<String, V, String>(m0, m1, k, v) == (m0.contains_key(*k) && m1 == m0.insert(*k, v)),
+{}
 // ---- sums of a per-bucket measure over a finite map (bookkeeping of `count`)
 pub open spec fn msum<K, S>(m: Map<K, S>, f: spec_fn(S) -> nat) -> nat
     decreases m.dom().len()
@@ -104,11 +108,12 @@ pub assume_specification<K, V, S, A: std::alloc::Allocator, F: FnMut(&K, &mut V)
         forall|k: K| old(m)@.contains_key(k) && !#[trigger] final(m)@.contains_key(k) ==> exists|v: &mut V| *v == old(m)@[k] && #[trigger] f.ensures((&k, v), false);
 
 // ---- SHIMS: Route and RouterConfig are opaque here; the accessors name the trigger fields of a route
-#[verifier::external_body] pub struct RouterConfig { x: u8 }
+//@@ item src/router_config.rs :: struct RouterConfig
 #[verifier::external_body] #[verifier::accept_recursive_types(T)] pub struct Route<T> { h: std::marker::PhantomData<T> }
 pub type RouteRef<T> = Arc<Route<T>>;
 pub uninterp spec fn rid<T>(r: Route<T>) -> Seq<char>;
 pub uninterp spec fn rscheme<T>(r: Route<T>) -> Option<Seq<char>>;
+pub open spec fn rscheme_of<T>(x: RouteRef<T>) -> Option<Seq<char>> { rscheme(*x) }
 pub open spec fn opt_chars(o: Option<&str>) -> Option<Seq<char>> { match o { Some(s) => Some(s@), None => None } }
 impl<T> Route<T> {
     #[verifier::external_body] pub fn id(&self) -> (r: &str) ensures r@ == rid(*self) { unimplemented!() }
@@ -166,12 +171,12 @@ macro_rules! sub_store_shim {
         }
     };
 }
-sub_store_shim!(SubHost);
+sub_store_shim!(Sub);
 // what remove(id) / batch_remove(ids) do to one bucket (the lower layer's contract, as a relation)
-pub open spec fn host_removed<T>(v0: SubHost<T>, v1: SubHost<T>, id: Seq<char>, r: Option<RouteRef<T>>) -> bool {
+pub open spec fn sub_removed<T>(v0: Sub<T>, v1: Sub<T>, id: Seq<char>, r: Option<RouteRef<T>>) -> bool {
     v1.wf() && removed_law(v0.hs(), v1.hs(), id, r) && (r is Some ==> v0.cnt() >= 1 && v1.cnt() == v0.cnt() - 1) && (r is None ==> v1.cnt() == v0.cnt())
 }
-pub open spec fn host_batched<T>(v0: SubHost<T>, v1: SubHost<T>, ids: Set<String>) -> bool {
+pub open spec fn sub_batched<T>(v0: Sub<T>, v1: Sub<T>, ids: Set<String>) -> bool {
     v1.wf() && batch_law(v0.hs(), v1.hs(), ids) && v1.cnt() == v0.cnt()
 }
 // R8 outline, ASSUMED contract (trusted, listed): the statement
@@ -180,24 +185,24 @@ pub open spec fn host_batched<T>(v0: SubHost<T>, v1: SubHost<T>, ids: Set<String
 // that is empty afterwards is dropped, `removed` receives a route returned by one of these calls (if any), and — ids being unique across
 // buckets — the total of the buckets' counts drops by one exactly when a route was removed.
 #[verifier::external_body]
-pub fn outl_schemes_retain_remove<T>(m: &mut HashMap<String, SubHost<T>>, id: &str, removed: &mut Option<RouteRef<T>>)
+pub fn outl_retain_remove<T>(m: &mut HashMap<String, Sub<T>>, id: &str, removed: &mut Option<RouteRef<T>>)
     requires forall|k: String| old(m)@.contains_key(k) ==> (#[trigger] old(m)@[k]).wf(), *old(removed) is None,
         forall|k1: String, k2: String, x: RouteRef<T>, y: RouteRef<T>| old(m)@.contains_key(k1) && old(m)@.contains_key(k2) && #[trigger] old(m)@[k1].holds(x) && #[trigger] old(m)@[k2].holds(y) && rid(*x) == rid(*y) ==> x == y,
     ensures
-        forall|k: String| #[trigger] final(m)@.contains_key(k) ==> old(m)@.contains_key(k) && exists|r: Option<RouteRef<T>>| #[trigger] host_removed(old(m)@[k], final(m)@[k], id@, r),
-        forall|k: String| old(m)@.contains_key(k) && !#[trigger] final(m)@.contains_key(k) ==> exists|v1: SubHost<T>, r: Option<RouteRef<T>>| #[trigger] host_removed(old(m)@[k], v1, id@, r) && v1.cnt() == 0,
+        forall|k: String| #[trigger] final(m)@.contains_key(k) ==> old(m)@.contains_key(k) && exists|r: Option<RouteRef<T>>| #[trigger] sub_removed(old(m)@[k], final(m)@[k], id@, r),
+        forall|k: String| old(m)@.contains_key(k) && !#[trigger] final(m)@.contains_key(k) ==> exists|v1: Sub<T>, r: Option<RouteRef<T>>| #[trigger] sub_removed(old(m)@[k], v1, id@, r) && v1.cnt() == 0,
         *final(removed) matches Some(x) ==> rid(*x) == id@ && exists|k: String| old(m)@.contains_key(k) && #[trigger] old(m)@[k].holds(x),
         *final(removed) is None ==> forall|k: String, y: RouteRef<T>| old(m)@.contains_key(k) && #[trigger] old(m)@[k].holds(y) ==> rid(*y) != id@,
-        msum(final(m)@, cnt_host::<T>()) + (if *final(removed) is Some { 1nat } else { 0nat }) == msum(old(m)@, cnt_host::<T>()),
+        msum(final(m)@, cnt_sub::<T>()) + (if *final(removed) is Some { 1nat } else { 0nat }) == msum(old(m)@, cnt_sub::<T>()),
 {
     /* verbatim: self.schemes.retain(|_, matcher| { if let Some(value) = matcher.remove(id) { removed = Some(value); } !matcher.is_empty() }); */
     unimplemented!()
 }
 
 // ================================================================ scheme layer
-//@@ rename HostMatcher SubHost
+//@@ rename HostMatcher Sub
 //@@ item src/router/request_matcher/scheme.rs :: struct SchemeMatcher
-pub open spec fn cnt_host<T>() -> spec_fn(SubHost<T>) -> nat { |s: SubHost<T>| s.cnt() }
+pub open spec fn cnt_sub<T>() -> spec_fn(Sub<T>) -> nat { |s: Sub<T>| s.cnt() }
 impl<T> SchemeMatcher<T> {
     pub open spec fn holds(&self, x: RouteRef<T>) -> bool {
         self.any_scheme.holds(x) || exists|k: String| self.schemes@.contains_key(k) && #[trigger] self.schemes@[k].holds(x)
@@ -207,7 +212,7 @@ impl<T> SchemeMatcher<T> {
     pub open spec fn wf(&self) -> bool {
         &&& self.any_scheme.wf()
         &&& forall|k: String| self.schemes@.contains_key(k) ==> (#[trigger] self.schemes@[k]).wf() && k@.len() > 0
-        &&& self.count == self.any_scheme.cnt() + msum(self.schemes@, cnt_host::<T>())
+        &&& self.count == self.any_scheme.cnt() + msum(self.schemes@, cnt_sub::<T>())
         &&& uniq_ids(self.hs())
         // bucket-key consistency: a route filed under scheme k has scheme k; a route filed under "any" has no (or the empty) scheme
         &&& forall|k: String, x: RouteRef<T>| self.schemes@.contains_key(k) && #[trigger] self.schemes@[k].holds(x) ==> rscheme(*x) == Some(k@)
@@ -221,7 +226,7 @@ impl<T> SchemeMatcher<T> {
     //@| requires old(self).wf(), old(self).cnt() < usize::MAX, forall|x: RouteRef<T>| old(self).holds(x) ==> rid(*x) != rid(*route),
     //@| ensures final(self).wf(), final(self).cnt() == old(self).cnt() + 1, forall|x: RouteRef<T>| final(self).holds(x) <==> old(self).holds(x) || x == route,
     //@| entry broadcast use group_hash_axioms; broadcast use axiom_string_key_model; broadcast use axiom_borrow_str_contains; broadcast use axiom_borrow_str_maps; broadcast use axiom_borrow_str_upd;
-    //@|     let ghost m0 = self.schemes@; let ghost a0 = self.any_scheme; let ghost f = cnt_host::<T>();
+    //@|     let ghost m0 = self.schemes@; let ghost a0 = self.any_scheme; let ghost f = cnt_sub::<T>(); let ghost rt = route; let ghost rsc = rscheme_of(rt);
     //@|     proof { axiom_string_ext(); self.any_scheme.lemma_wf(); lit_empty(); }
     //@| exit proof {
     //@|     assert forall|x: RouteRef<T>, y: RouteRef<T>| #[trigger] self.hs()(x) && #[trigger] self.hs()(y) && rid(*x) == rid(*y) implies x == y by {
@@ -230,6 +235,15 @@ impl<T> SchemeMatcher<T> {
     //@|         else if x != route { assert(old(self).holds(x)); } else if y != route { assert(old(self).holds(y)); }
     //@|     }
     //@| }
+    //@| exit proof { if rsc is None || rsc.unwrap().len() == 0 {
+    //@|     assert(self.schemes@ == m0);
+    //@|     assert forall|k: String, x: RouteRef<T>| self.schemes@.contains_key(k) && #[trigger] self.schemes@[k].holds(x) implies rscheme(*x) == Some(k@) by { assert(m0[k].holds(x)); }
+    //@|     assert forall|x: RouteRef<T>| #[trigger] self.any_scheme.holds(x) implies (rscheme(*x) matches Some(s) ==> s.len() == 0) by { if x != rt { assert(a0.holds(x)); } }
+    //@|     assert forall|x: RouteRef<T>| self.holds(x) <==> old(self).holds(x) || x == rt by {
+    //@|         if self.holds(x) && !self.any_scheme.holds(x) { let k = choose|k: String| self.schemes@.contains_key(k) && #[trigger] self.schemes@[k].holds(x); assert(m0[k].holds(x)); }
+    //@|         if old(self).holds(x) && !a0.holds(x) { let k = choose|k: String| m0.contains_key(k) && #[trigger] m0[k].holds(x); assert(self.schemes@[k].holds(x)); }
+    //@|     }
+    //@| } }
     //@| after `self.schemes.insert(scheme.to_string(), HostMatcher::new(self.config.clone()));`: proof {
     //@|     let key = choose|key: String| key@ == scheme@ && self.schemes@.contains_key(key);
     //@|     assert(self.schemes@ == m0.insert(key, self.schemes@[key]));
@@ -261,13 +275,19 @@ impl<T> SchemeMatcher<T> {
     //@|         }
     //@|         if x == route { assert(self.schemes@[key].holds(x)); }
     //@|     }
+    //@|     assert forall|k: String| self.schemes@.contains_key(k) implies (#[trigger] self.schemes@[k]).wf() && k@.len() > 0 by { if k != key { assert(m1.contains_key(k) && m1[k] == self.schemes@[k]); } }
+    //@|     assert forall|k: String, x: RouteRef<T>| self.schemes@.contains_key(k) && #[trigger] self.schemes@[k].holds(x) implies rscheme(*x) == Some(k@) by {
+    //@|         if k != key { assert(m1[k] == self.schemes@[k]); assert(m0.contains_key(k) && m0[k].holds(x)); }
+    //@|         else if x != route { assert(m1[key].holds(x)); assert(m0.contains_key(key) && m0[key].holds(x)); }
+    //@|     }
+    //@|     assert(self.any_scheme == a0);
     //@| }
 
     //@@ fn src/router/request_matcher/scheme.rs :: impl <T>SchemeMatcher<T> / fn remove -> r
     //@| requires old(self).wf(),
     //@| ensures final(self).wf(), removed_law(old(self).hs(), final(self).hs(), id@, r),
     //@|     r is Some ==> old(self).cnt() >= 1 && final(self).cnt() == old(self).cnt() - 1, r is None ==> final(self).cnt() == old(self).cnt(),
-    //@| outline `self.schemes.retain(|_, matcher| { if let Some(value) = matcher.remove(id) { removed = Some(value); } !matcher.is_empty() });` => `outl_schemes_retain_remove(&mut self.schemes, id, &mut removed);`
+    //@| outline `self.schemes.retain(|_, matcher| { if let Some(value) = matcher.remove(id) { removed = Some(value); } !matcher.is_empty() });` => `outl_retain_remove(&mut self.schemes, id, &mut removed);`
     //@| entry broadcast use group_hash_axioms; broadcast use axiom_string_key_model;
     //@|     let ghost m0 = self.schemes@; let ghost a0 = self.any_scheme;
     //@|     proof { axiom_string_ext(); a0.lemma_wf(); assert forall|x: RouteRef<T>| a0.holds(x) implies old(self).hs()(x) by { assert(old(self).holds(x)); } }
@@ -297,32 +317,32 @@ impl<T> SchemeMatcher<T> {
     //@|         assert(self.hs()(y) == self.holds(y)); assert(old(self).hs()(y) == old(self).holds(y));
     //@|         if self.holds(y) && !self.any_scheme.holds(y) {
     //@|             let k = choose|k: String| m1.contains_key(k) && #[trigger] m1[k].holds(y);
-    //@|             let r = choose|r: Option<RouteRef<T>>| #[trigger] host_removed(m0[k], m1[k], id@, r);
+    //@|             let r = choose|r: Option<RouteRef<T>>| #[trigger] sub_removed(m0[k], m1[k], id@, r);
     //@|             assert(m1[k].hs()(y)); assert(m0[k].hs()(y)); assert(m0[k].holds(y));
     //@|         }
     //@|         if old(self).holds(y) && !a0.holds(y) && rid(*y) != id@ {
     //@|             let k = choose|k: String| m0.contains_key(k) && #[trigger] m0[k].holds(y);
     //@|             assert(m0[k].hs()(y));
     //@|             if m1.contains_key(k) {
-    //@|                 let r = choose|r: Option<RouteRef<T>>| #[trigger] host_removed(m0[k], m1[k], id@, r);
+    //@|                 let r = choose|r: Option<RouteRef<T>>| #[trigger] sub_removed(m0[k], m1[k], id@, r);
     //@|                 assert(m1[k].hs()(y)); assert(m1[k].holds(y));
     //@|             } else {
-    //@|                 let (v1, r) = choose|v1: SubHost<T>, r: Option<RouteRef<T>>| #[trigger] host_removed(m0[k], v1, id@, r) && v1.cnt() == 0;
+    //@|                 let (v1, r) = choose|v1: Sub<T>, r: Option<RouteRef<T>>| #[trigger] sub_removed(m0[k], v1, id@, r) && v1.cnt() == 0;
     //@|                 v1.lemma_wf(); assert(v1.hs()(y)); assert(v1.holds(y));
     //@|             }
     //@|         }
     //@|     }
     //@|     if removed is Some { let x0 = removed.unwrap(); let k = choose|k: String| m0.contains_key(k) && #[trigger] m0[k].holds(x0); assert(old(self).holds(x0)); assert(old(self).hs()(x0)); assert(m0[k].wf()); m0[k].lemma_wf();
-    //@|         lemma_msum_remove(m0, cnt_host::<T>(), k);
-    //@|         if m1.contains_key(k) { let r = choose|r: Option<RouteRef<T>>| #[trigger] host_removed(m0[k], m1[k], id@, r); assert(m0[k].hs()(x0)); assert(r is Some); }
-    //@|         else { let (v1, r) = choose|v1: SubHost<T>, r: Option<RouteRef<T>>| #[trigger] host_removed(m0[k], v1, id@, r) && v1.cnt() == 0; assert(m0[k].hs()(x0)); assert(r is Some); }
+    //@|         lemma_msum_remove(m0, cnt_sub::<T>(), k);
+    //@|         if m1.contains_key(k) { let r = choose|r: Option<RouteRef<T>>| #[trigger] sub_removed(m0[k], m1[k], id@, r); assert(m0[k].hs()(x0)); assert(r is Some); }
+    //@|         else { let (v1, r) = choose|v1: Sub<T>, r: Option<RouteRef<T>>| #[trigger] sub_removed(m0[k], v1, id@, r) && v1.cnt() == 0; assert(m0[k].hs()(x0)); assert(r is Some); }
     //@|     } else {
     //@|         assert forall|y: RouteRef<T>| #[trigger] old(self).hs()(y) implies rid(*y) != id@ by { assert(old(self).holds(y)); if !a0.holds(y) { let k = choose|k: String| m0.contains_key(k) && #[trigger] m0[k].holds(y); } }
     //@|     }
-    //@|     assert forall|k: String| m1.contains_key(k) implies (#[trigger] m1[k]).wf() && k@.len() > 0 by { let r = choose|r: Option<RouteRef<T>>| #[trigger] host_removed(m0[k], m1[k], id@, r); }
+    //@|     assert forall|k: String| m1.contains_key(k) implies (#[trigger] m1[k]).wf() && k@.len() > 0 by { let r = choose|r: Option<RouteRef<T>>| #[trigger] sub_removed(m0[k], m1[k], id@, r); }
     //@|     assert forall|x: RouteRef<T>, y: RouteRef<T>| #[trigger] self.hs()(x) && #[trigger] self.hs()(y) && rid(*x) == rid(*y) implies x == y by { assert(old(self).hs()(x) && old(self).hs()(y)); }
     //@|     assert forall|k: String, x: RouteRef<T>| m1.contains_key(k) && #[trigger] m1[k].holds(x) implies rscheme(*x) == Some(k@) by {
-    //@|         let r = choose|r: Option<RouteRef<T>>| #[trigger] host_removed(m0[k], m1[k], id@, r); assert(m1[k].hs()(x)); assert(m0[k].hs()(x)); assert(m0[k].holds(x));
+    //@|         let r = choose|r: Option<RouteRef<T>>| #[trigger] sub_removed(m0[k], m1[k], id@, r); assert(m1[k].hs()(x)); assert(m0[k].hs()(x)); assert(m0[k].holds(x));
     //@|     }
     //@|     assert forall|x: RouteRef<T>| #[trigger] self.any_scheme.holds(x) implies (rscheme(*x) matches Some(s) ==> s.len() == 0) by { assert(a0.holds(x)); }
     //@| }
@@ -330,13 +350,13 @@ impl<T> SchemeMatcher<T> {
     //@@ fn src/router/request_matcher/scheme.rs :: impl <T>SchemeMatcher<T> / fn batch_remove -> r
     //@| requires old(self).wf(),
     //@| ensures final(self).wf(), batch_law(old(self).hs(), final(self).hs(), ids@), final(self).cnt() == old(self).cnt(),
-    //@| closure `|_, matcher|` => `|_k: &String, matcher: &mut SubHost<T>| -> (b: bool) requires old(matcher).wf() ensures host_batched(*old(matcher), *final(matcher), ids@), !b ==> final(matcher).cnt() == 0`
+    //@| closure `|_, matcher|` => `|_k: &String, matcher: &mut Sub<T>| -> (b: bool) requires old(matcher).wf() ensures sub_batched(*old(matcher), *final(matcher), ids@), !b ==> final(matcher).cnt() == 0`
     //@| entry broadcast use group_hash_axioms; broadcast use axiom_string_key_model;
     //@|     let ghost m0 = self.schemes@; let ghost a0 = self.any_scheme;
     //@|     proof { axiom_string_ext(); }
     //@| exit proof {
-    //@|     let m1 = self.schemes@; let f = cnt_host::<T>(); let a1 = self.any_scheme;
-    //@|     assert forall|k: String| m1.contains_key(k) implies m0.contains_key(k) && host_batched(m0[k], #[trigger] m1[k], ids@) by {}
+    //@|     let m1 = self.schemes@; let f = cnt_sub::<T>(); let a1 = self.any_scheme;
+    //@|     assert forall|k: String| m1.contains_key(k) implies m0.contains_key(k) && sub_batched(m0[k], #[trigger] m1[k], ids@) by {}
     //@|     assert forall|k: String| m0.contains_key(k) && !m1.contains_key(k) implies f(#[trigger] m0[k]) == 0 && forall|y: RouteRef<T>| !m0[k].holds(y) by { m0[k].lemma_wf(); }
     //@|     assert(m1.dom().subset_of(m0.dom()));
     //@|     lemma_msum_sub(m0, m1, f);
@@ -345,17 +365,17 @@ impl<T> SchemeMatcher<T> {
     //@|         assert(a1.hs()(y) == a1.holds(y)); assert(a0.hs()(y) == a0.holds(y));
     //@|         if self.holds(y) && !a1.holds(y) {
     //@|             let k = choose|k: String| m1.contains_key(k) && #[trigger] m1[k].holds(y);
-    //@|             assert(host_batched(m0[k], m1[k], ids@)); assert(m1[k].hs()(y)); assert(m0[k].hs()(y)); assert(m0[k].holds(y));
+    //@|             assert(sub_batched(m0[k], m1[k], ids@)); assert(m1[k].hs()(y)); assert(m0[k].hs()(y)); assert(m0[k].holds(y));
     //@|         }
     //@|         if old(self).holds(y) && !a0.holds(y) && !ids_has(ids@, rid(*y)) {
     //@|             let k = choose|k: String| m0.contains_key(k) && #[trigger] m0[k].holds(y);
     //@|             assert(m1.contains_key(k));
-    //@|             assert(host_batched(m0[k], m1[k], ids@)); assert(m0[k].hs()(y)); assert(m1[k].hs()(y)); assert(m1[k].holds(y));
+    //@|             assert(sub_batched(m0[k], m1[k], ids@)); assert(m0[k].hs()(y)); assert(m1[k].hs()(y)); assert(m1[k].holds(y));
     //@|         }
     //@|     }
     //@|     assert forall|x: RouteRef<T>, y: RouteRef<T>| #[trigger] self.hs()(x) && #[trigger] self.hs()(y) && rid(*x) == rid(*y) implies x == y by { assert(old(self).hs()(x) && old(self).hs()(y)); }
     //@|     assert forall|k: String, x: RouteRef<T>| m1.contains_key(k) && #[trigger] m1[k].holds(x) implies rscheme(*x) == Some(k@) by {
-    //@|         assert(host_batched(m0[k], m1[k], ids@)); assert(m1[k].hs()(x)); assert(m0[k].hs()(x)); assert(m0[k].holds(x));
+    //@|         assert(sub_batched(m0[k], m1[k], ids@)); assert(m1[k].hs()(x)); assert(m0[k].hs()(x)); assert(m0[k].holds(x));
     //@|     }
     //@|     assert forall|x: RouteRef<T>| #[trigger] a1.holds(x) implies (rscheme(*x) matches Some(s) ==> s.len() == 0) by { assert(a1.hs()(x)); assert(a0.hs()(x)); assert(a0.holds(x)); }
     //@| }
@@ -366,6 +386,191 @@ impl<T> SchemeMatcher<T> {
     //@| ensures r == (self.cnt() == 0),
 }
 //@@ unrename HostMatcher
+
+// ================================================================ host layer
+// SHIM: marker strings are opaque except for their regex text; StaticOrDynamic is the real enum
+pub struct MarkerString { pub regex: String, pub vf_rest: u8 }
+//@@ item src/marker/mod.rs :: enum StaticOrDynamic
+pub enum HostKey { NoHost, Static(Seq<char>), Dynamic(Seq<char>) }
+pub uninterp spec fn rhost<T>(r: Route<T>) -> HostKey;
+pub open spec fn rhost_of<T>(x: RouteRef<T>) -> HostKey { rhost(*x) }
+pub open spec fn host_key(o: Option<&StaticOrDynamic>) -> HostKey {
+    match o { None => HostKey::NoHost, Some(StaticOrDynamic::Static(s)) => HostKey::Static(s@), Some(StaticOrDynamic::Dynamic(m)) => HostKey::Dynamic(m.regex@) }
+}
+impl<T> Route<T> {
+    #[verifier::external_body] pub fn host(&self) -> (r: Option<&StaticOrDynamic>) ensures host_key(r) == rhost(*self) { unimplemented!() }
+}
+// SHIM of the regex tree keyed by unique patterns (unit `tree` verifies the real one against its content laws; here: the induced
+// pattern -> value map). ASSUMED contracts, in the shape of HashMap's.
+#[verifier::external_body] #[verifier::accept_recursive_types(V)] pub struct UniqueRegexTreeMap<V> { h: std::marker::PhantomData<V> }
+impl<V> UniqueRegexTreeMap<V> {
+    pub uninterp spec fn tmap(&self) -> Map<Seq<char>, V>;
+    #[verifier::external_body]
+    pub fn new(ignore_case: bool) -> (r: Self) ensures r.tmap() == Map::<Seq<char>, V>::empty() { unimplemented!() }
+    #[verifier::external_body]
+    pub fn get_mut(&mut self, regex: &str) -> (r: Option<&mut V>)
+        ensures match r {
+            Some(v) => old(self).tmap().contains_key(regex@) && *v == old(self).tmap()[regex@] && final(self).tmap() == old(self).tmap().insert(regex@, *final(v)),
+            None => !old(self).tmap().contains_key(regex@) && final(self).tmap() == old(self).tmap(),
+        },
+    { unimplemented!() }
+    #[verifier::external_body]
+    pub fn insert(&mut self, regex: &str, item: V) ensures final(self).tmap() == old(self).tmap().insert(regex@, item) { unimplemented!() }
+    #[verifier::external_body]
+    pub fn retain<F: Fn(&str, &mut V) -> bool>(&mut self, f: &F)
+        requires forall|k: &str, v: &mut V| old(self).tmap().contains_key(k@) && *v == old(self).tmap()[k@] ==> #[trigger] f.requires((k, v)),
+        ensures
+            forall|p: Seq<char>| #[trigger] final(self).tmap().contains_key(p) ==> old(self).tmap().contains_key(p) && exists|k: &str, v: &mut V| k@ == p && *v == old(self).tmap()[p] && *final(v) == final(self).tmap()[p] && #[trigger] f.ensures((k, v), true),
+            forall|p: Seq<char>| old(self).tmap().contains_key(p) && !#[trigger] final(self).tmap().contains_key(p) ==> exists|k: &str, v: &mut V| k@ == p && *v == old(self).tmap()[p] && #[trigger] f.ensures((k, v), false),
+    { unimplemented!() }
+    #[verifier::external_body]
+    pub fn is_empty(&self) -> (r: bool) ensures r == (self.tmap().len() == 0) { unimplemented!() }
+}
+//@@ rename IpMatcher Sub
+//@@ item src/router/request_matcher/host.rs :: struct HostMatcher
+
+// holds/uniqueness bookkeeping shared by the paths of HostMatcher::insert
+pub proof fn lemma_host_uniq<T>(o: HostMatcher<T>, n: HostMatcher<T>, rt: RouteRef<T>)
+    requires uniq_ids(o.hs()), forall|x: RouteRef<T>| o.holds(x) ==> rid(*x) != rid(*rt), forall|x: RouteRef<T>| n.holds(x) <==> o.holds(x) || x == rt,
+    ensures uniq_ids(n.hs()),
+{
+    assert forall|x: RouteRef<T>, y: RouteRef<T>| #[trigger] n.hs()(x) && #[trigger] n.hs()(y) && rid(*x) == rid(*y) implies x == y by {
+        assert(n.holds(x) && n.holds(y));
+        if x != rt && y != rt { assert(o.hs()(x) && o.hs()(y)); }
+        else if x != rt { assert(o.holds(x)); } else if y != rt { assert(o.holds(y)); }
+    }
+}
+pub proof fn lemma_host_any_path<T>(o: HostMatcher<T>, n: HostMatcher<T>, rt: RouteRef<T>)
+    requires o.wf(), forall|x: RouteRef<T>| o.holds(x) ==> rid(*x) != rid(*rt),
+        n.static_hosts@ == o.static_hosts@, n.regex_tree_rule.tmap() == o.regex_tree_rule.tmap(), n.any_host.wf(), n.count == o.count + 1, n.any_host.cnt() == o.any_host.cnt() + 1,
+        forall|x: RouteRef<T>| n.any_host.holds(x) <==> o.any_host.holds(x) || x == rt,
+        rhost(*rt) is NoHost || rhost(*rt) == HostKey::Static(Seq::<char>::empty()),
+    ensures n.wf(), forall|x: RouteRef<T>| n.holds(x) <==> o.holds(x) || x == rt,
+{
+    assert forall|x: RouteRef<T>| n.holds(x) <==> o.holds(x) || x == rt by {
+        if n.holds(x) && !n.any_host.holds(x) {
+            if exists|k: String| n.static_hosts@.contains_key(k) && #[trigger] n.static_hosts@[k].holds(x) { let k = choose|k: String| n.static_hosts@.contains_key(k) && #[trigger] n.static_hosts@[k].holds(x); assert(o.static_hosts@[k].holds(x)); }
+            else { let p = choose|p: Seq<char>| n.regex_tree_rule.tmap().contains_key(p) && #[trigger] n.regex_tree_rule.tmap()[p].holds(x); assert(o.regex_tree_rule.tmap()[p].holds(x)); }
+        }
+        if o.holds(x) && !o.any_host.holds(x) {
+            if exists|k: String| o.static_hosts@.contains_key(k) && #[trigger] o.static_hosts@[k].holds(x) { let k = choose|k: String| o.static_hosts@.contains_key(k) && #[trigger] o.static_hosts@[k].holds(x); assert(n.static_hosts@[k].holds(x)); }
+            else { let p = choose|p: Seq<char>| o.regex_tree_rule.tmap().contains_key(p) && #[trigger] o.regex_tree_rule.tmap()[p].holds(x); assert(n.regex_tree_rule.tmap()[p].holds(x)); }
+        }
+    }
+    lemma_host_uniq(o, n, rt);
+    assert forall|x: RouteRef<T>| #[trigger] n.any_host.holds(x) implies (rhost(*x) is NoHost || rhost(*x) == HostKey::Static(Seq::<char>::empty())) by { if x != rt { assert(o.any_host.holds(x)); } }
+}
+
+pub proof fn lemma_host_dyn_path<T>(o: HostMatcher<T>, n: HostMatcher<T>, rt: RouteRef<T>, p: Seq<char>)
+    requires o.wf(), forall|x: RouteRef<T>| o.holds(x) ==> rid(*x) != rid(*rt), rhost(*rt) == HostKey::Dynamic(p),
+        n.static_hosts@ == o.static_hosts@, n.any_host == o.any_host, n.count == o.count + 1,
+        n.regex_tree_rule.tmap() == o.regex_tree_rule.tmap().insert(p, n.regex_tree_rule.tmap()[p]),
+        n.regex_tree_rule.tmap()[p].wf(),
+        forall|x: RouteRef<T>| n.regex_tree_rule.tmap()[p].holds(x) <==> (o.regex_tree_rule.tmap().contains_key(p) && o.regex_tree_rule.tmap()[p].holds(x)) || x == rt,
+        n.regex_tree_rule.tmap()[p].cnt() == (if o.regex_tree_rule.tmap().contains_key(p) { o.regex_tree_rule.tmap()[p].cnt() } else { 0 }) + 1,
+    ensures n.wf(), forall|x: RouteRef<T>| n.holds(x) <==> o.holds(x) || x == rt,
+{
+    let t0 = o.regex_tree_rule.tmap(); let t2 = n.regex_tree_rule.tmap(); let v = t2[p]; let f = cnt_sub::<T>();
+    lemma_msum_insert(t0, f, p, v);
+    if t0.contains_key(p) { lemma_msum_remove(t0, f, p); } else { assert(t0.remove(p) =~= t0); }
+    assert forall|x: RouteRef<T>| n.holds(x) <==> o.holds(x) || x == rt by {
+        if n.holds(x) && !n.any_host.holds(x) {
+            if exists|k: String| n.static_hosts@.contains_key(k) && #[trigger] n.static_hosts@[k].holds(x) { let k = choose|k: String| n.static_hosts@.contains_key(k) && #[trigger] n.static_hosts@[k].holds(x); assert(o.static_hosts@[k].holds(x)); }
+            else { let q = choose|q: Seq<char>| t2.contains_key(q) && #[trigger] t2[q].holds(x); if q != p { assert(t0.contains_key(q) && t0[q] == t2[q]); assert(t0[q].holds(x)); } else if x != rt { assert(t0[p].holds(x)); } }
+        }
+        if o.holds(x) && !o.any_host.holds(x) {
+            if exists|k: String| o.static_hosts@.contains_key(k) && #[trigger] o.static_hosts@[k].holds(x) { let k = choose|k: String| o.static_hosts@.contains_key(k) && #[trigger] o.static_hosts@[k].holds(x); assert(n.static_hosts@[k].holds(x)); }
+            else { let q = choose|q: Seq<char>| t0.contains_key(q) && #[trigger] t0[q].holds(x); assert(t2.contains_key(q)); if q != p { assert(t2[q] == t0[q]); } assert(t2[q].holds(x)); }
+        }
+        if x == rt { assert(t2.contains_key(p) && t2[p].holds(x)); }
+    }
+    lemma_host_uniq(o, n, rt);
+    assert forall|q: Seq<char>| t2.contains_key(q) implies (#[trigger] t2[q]).wf() by { if q != p { assert(t0.contains_key(q) && t0[q] == t2[q]); } }
+    assert forall|q: Seq<char>, x: RouteRef<T>| t2.contains_key(q) && #[trigger] t2[q].holds(x) implies rhost(*x) == HostKey::Dynamic(q) by {
+        if q != p { assert(t0.contains_key(q) && t0[q] == t2[q]); assert(t0[q].holds(x)); } else if x != rt { assert(t0[p].holds(x)); }
+    }
+}
+impl<T> HostMatcher<T> {
+    pub open spec fn holds(&self, x: RouteRef<T>) -> bool {
+        ||| self.any_host.holds(x)
+        ||| exists|k: String| self.static_hosts@.contains_key(k) && #[trigger] self.static_hosts@[k].holds(x)
+        ||| exists|p: Seq<char>| self.regex_tree_rule.tmap().contains_key(p) && #[trigger] self.regex_tree_rule.tmap()[p].holds(x)
+    }
+    pub open spec fn hs(&self) -> spec_fn(RouteRef<T>) -> bool { |x: RouteRef<T>| self.holds(x) }
+    pub open spec fn cnt(&self) -> nat { self.count as nat }
+    pub open spec fn wf(&self) -> bool {
+        &&& self.any_host.wf()
+        &&& forall|k: String| self.static_hosts@.contains_key(k) ==> (#[trigger] self.static_hosts@[k]).wf() && k@.len() > 0
+        &&& forall|p: Seq<char>| self.regex_tree_rule.tmap().contains_key(p) ==> (#[trigger] self.regex_tree_rule.tmap()[p]).wf()
+        &&& self.count == self.any_host.cnt() + msum(self.static_hosts@, cnt_sub::<T>()) + msum(self.regex_tree_rule.tmap(), cnt_sub::<T>())
+        &&& uniq_ids(self.hs())
+        // bucket-key consistency
+        &&& forall|k: String, x: RouteRef<T>| self.static_hosts@.contains_key(k) && #[trigger] self.static_hosts@[k].holds(x) ==> rhost(*x) == HostKey::Static(k@)
+        &&& forall|p: Seq<char>, x: RouteRef<T>| self.regex_tree_rule.tmap().contains_key(p) && #[trigger] self.regex_tree_rule.tmap()[p].holds(x) ==> rhost(*x) == HostKey::Dynamic(p)
+        &&& forall|x: RouteRef<T>| #[trigger] self.any_host.holds(x) ==> (rhost(*x) is NoHost || rhost(*x) == HostKey::Static(Seq::<char>::empty()))
+    }
+    //@@ fn src/router/request_matcher/host.rs :: impl <T>HostMatcher<T> / fn new -> r
+    //@| ensures r.wf(), r.cnt() == 0, forall|x: RouteRef<T>| !r.holds(x),
+    //@| entry broadcast use group_hash_axioms; broadcast use axiom_string_key_model;
+
+    //@@ fn src/router/request_matcher/host.rs :: impl <T>HostMatcher<T> / fn insert
+    //@| requires old(self).wf(), old(self).cnt() < usize::MAX, forall|x: RouteRef<T>| old(self).holds(x) ==> rid(*x) != rid(*route),
+    //@| ensures final(self).wf(), final(self).cnt() == old(self).cnt() + 1, forall|x: RouteRef<T>| final(self).holds(x) <==> old(self).holds(x) || x == route,
+    //@| entry broadcast use group_hash_axioms; broadcast use axiom_string_key_model; broadcast use axiom_borrow_str_contains; broadcast use axiom_borrow_str_maps; broadcast use axiom_borrow_str_upd; broadcast use axiom_borrow_string_upd; broadcast use axiom_arc_cloned;
+    //@|     let ghost m0 = self.static_hosts@; let ghost t0 = self.regex_tree_rule.tmap(); let ghost a0 = self.any_host; let ghost f = cnt_sub::<T>(); let ghost rt = route; let ghost hk = rhost_of(rt);
+    //@|     proof { axiom_string_ext(); self.any_host.lemma_wf(); lit_empty();
+    //@|         match hk { HostKey::Dynamic(p) => { if t0.contains_key(p) { lemma_msum_remove(t0, f, p); t0[p].lemma_wf(); assert forall|x: RouteRef<T>| t0[p].holds(x) implies rid(*x) != rid(*route) by { assert(old(self).holds(x)); } } }, _ => {} } }
+    //@| exit proof {
+    //@|     if hk is NoHost { lemma_host_any_path(*old(self), *self, rt); }
+    //@|     match hk { HostKey::Dynamic(p) => { lemma_host_dyn_path(*old(self), *self, rt, p); }, _ => {} }
+    //@| }
+    //@| before `return;`: proof { assert(static_host@ =~= Seq::<char>::empty()); lemma_host_any_path(*old(self), *self, rt); }
+    //@| after `self.static_hosts.insert(static_host.clone(), IpMatcher::new(self.config.clone()));`: proof {
+    //@|     let key = choose|key: String| key@ == static_host@ && self.static_hosts@.contains_key(key);
+    //@|     assert(self.static_hosts@ == m0.insert(key, self.static_hosts@[key]));
+    //@|     lemma_msum_fresh(m0, f, key, self.static_hosts@[key]);
+    //@| }
+    //@| before `self.static_hosts.get_mut(static_host).unwrap().insert(route.clone());`: let ghost m1 = self.static_hosts@;
+    //@|     proof {
+    //@|         let key = choose|key: String| key@ == static_host@ && m1.contains_key(key);
+    //@|         assert(m1[key].wf());
+    //@|         m1[key].lemma_wf();
+    //@|         lemma_msum_remove(m1, f, key);
+    //@|         assert forall|x: RouteRef<T>| m1[key].holds(x) implies rid(*x) != rid(*route) by { if m0.contains_key(key) { assert(old(self).holds(x)); } }
+    //@|     }
+    //@| after `self.static_hosts.get_mut(static_host).unwrap().insert(route.clone());`: proof {
+    //@|     let key = choose|key: String| key@ == static_host@ && m1.contains_key(key);
+    //@|     let v = self.static_hosts@[key];
+    //@|     assert(self.static_hosts@ == m1.insert(key, v));
+    //@|     lemma_msum_insert(m1, f, key, v);
+    //@|     assert(self.regex_tree_rule.tmap() == t0 && self.any_host == a0);
+    //@|     assert forall|x: RouteRef<T>| self.holds(x) <==> old(self).holds(x) || x == rt by {
+    //@|         if self.holds(x) && !self.any_host.holds(x) && !(exists|p: Seq<char>| t0.contains_key(p) && #[trigger] t0[p].holds(x)) {
+    //@|             let k = choose|k: String| self.static_hosts@.contains_key(k) && #[trigger] self.static_hosts@[k].holds(x);
+    //@|             if k != key { assert(m1[k] == self.static_hosts@[k]); assert(m0.contains_key(k) && m0[k].holds(x)); }
+    //@|             else if x != rt { assert(m1[key].holds(x)); assert(m0.contains_key(key) && m0[key].holds(x)); }
+    //@|         }
+    //@|         if old(self).holds(x) && !a0.holds(x) && !(exists|p: Seq<char>| t0.contains_key(p) && #[trigger] t0[p].holds(x)) {
+    //@|             let k = choose|k: String| m0.contains_key(k) && #[trigger] m0[k].holds(x);
+    //@|             assert(self.static_hosts@.contains_key(k));
+    //@|             if k != key { assert(self.static_hosts@[k] == m0[k]); } else { assert(m1[key] == m0[key]); assert(self.static_hosts@[key].holds(x)); }
+    //@|         }
+    //@|         if x == rt { assert(self.static_hosts@[key].holds(x)); }
+    //@|     }
+    //@|     assert forall|k: String| self.static_hosts@.contains_key(k) implies (#[trigger] self.static_hosts@[k]).wf() && k@.len() > 0 by { if k != key { assert(m1.contains_key(k) && m1[k] == self.static_hosts@[k]); } }
+    //@|     assert forall|k: String, x: RouteRef<T>| self.static_hosts@.contains_key(k) && #[trigger] self.static_hosts@[k].holds(x) implies rhost(*x) == HostKey::Static(k@) by {
+    //@|         if k != key { assert(m1[k] == self.static_hosts@[k]); assert(m0.contains_key(k) && m0[k].holds(x)); }
+    //@|         else if x != rt { assert(m1[key].holds(x)); assert(m0.contains_key(key) && m0[key].holds(x)); }
+    //@|     }
+    //@|     lemma_host_uniq(*old(self), *self, rt);
+    //@| }
+
+    //@@ fn src/router/request_matcher/host.rs :: impl <T>HostMatcher<T> / fn len -> r
+    //@| ensures r == self.cnt(),
+    //@@ fn src/router/request_matcher/host.rs :: impl <T>HostMatcher<T> / fn is_empty -> r
+    //@| ensures r == (self.cnt() == 0),
+}
+//@@ unrename IpMatcher
 
 //@@ strlits
 } // verus!
